@@ -486,6 +486,26 @@ def rule_B4(tree: Tree) -> RuleResult:
                         bad.append(f"argument `{n}` is bound to parameter `{params[i]}` while `{names[j]}` is bound to `{params[j]}`")
             r.ob(not bad, Finding("B4", f"{f.key}:call:{callee.qualname}:{cs.node.lineno - f.node.lineno}",
                                   f"{f.qualname} calls {callee.qualname}({', '.join(names)}) whose parameters are ({', '.join(params)}): {bad[:1]}", f.module.line(cs.node)))
+    # keyword arguments: `name=other` while a variable called `name` exists in the calling function is the keyword form of the same swap
+    KW_EXCEPTIONS = {("quic.quic_dissector:extract_quic_packet", "ShortQuicPacket", "dcid", "guessed_dcid"):
+                     "a short header carries no connection-ID length: the ID guessed by the demultiplexer is the packet's DCID"}
+    for f in tree.all_funcs():
+        if f.module.short in ("log", "about"):
+            continue
+        names = {n.id for n in body_walk(f.node) if isinstance(n, ast.Name)} | set(f.params)
+        for c in body_walk(f.node):
+            if not isinstance(c, ast.Call) or not c.keywords:
+                continue
+            bad = []
+            for k in c.keywords:
+                if k.arg and isinstance(k.value, ast.Name) and k.value.id != k.arg and k.arg in names \
+                        and (f.key, (dotted(c.func) or "").split(".")[-1], k.arg, k.value.id) not in KW_EXCEPTIONS:
+                    bad.append(f"{k.arg}={k.value.id}")
+            if any(isinstance(k.value, ast.Name) for k in c.keywords):
+                r.instances += 1
+                r.ob(not bad, Finding("B4", f"{f.key}:kwcall:{(dotted(c.func) or '?').split('.')[-1]}:{','.join(bad)}",
+                                      f"{f.qualname} calls {src(c.func, 40)}(… {', '.join(bad)} …) although a variable named like the keyword exists in the function: the parameter receives "
+                                      f"the neighbouring value", f.module.line(c)))
     # generate_keys wiring
     gk = tree.func("session", "Session.generate_keys")
     cfg = cfg_of(gk.node)
